@@ -1130,7 +1130,7 @@ impl Connection {
                 // since the packet could have triggered a migration. Make sure
                 // the data received is accounted for the most recent path by accessing
                 // `path` after `handle_decode`.
-                self.path.total_recvd = self.path.total_recvd.saturating_add(data_len as u64);
+                self.credit_received(remote, data_len as u64);
 
                 if let Some(data) = remaining {
                     self.stats.udp_rx.bytes += data.len() as u64;
@@ -2267,6 +2267,19 @@ impl Connection {
         self.set_loss_detection_timer(now)
     }
 
+    /// Count bytes received from `remote` towards the anti-amplification budget of the path
+    /// they arrived on; datagrams from any other address (e.g. reordered ones from the path
+    /// used before a migration) do not raise the current path's budget.
+    fn credit_received(&mut self, remote: SocketAddr, bytes: u64) {
+        if remote == self.path.remote {
+            self.path.total_recvd = self.path.total_recvd.saturating_add(bytes);
+        } else if let Some((_, prev)) = self.prev_path.as_mut() {
+            if remote == prev.remote {
+                prev.total_recvd = prev.total_recvd.saturating_add(bytes);
+            }
+        }
+    }
+
     fn handle_coalesced(
         &mut self,
         now: Instant,
@@ -2274,7 +2287,7 @@ impl Connection {
         ecn: Option<EcnCodepoint>,
         data: BytesMut,
     ) {
-        self.path.total_recvd = self.path.total_recvd.saturating_add(data.len() as u64);
+        self.credit_received(remote, data.len() as u64);
         let mut remaining = Some(data);
         while let Some(data) = remaining {
             match PartialDecode::new(
